@@ -46,14 +46,14 @@ type Harness struct {
 }
 
 type Loaded struct {
-	Prog      *ssa.Program
-	Fset      *token.FileSet
-	Pkgs      map[string]*ssa.Package
-	Harnesses []*Harness
-	Overlay   map[string][]byte
+	Prog            *ssa.Program
+	Fset            *token.FileSet
+	Pkgs            map[string]*ssa.Package
+	Harnesses       []*Harness
+	Overlay         map[string][]byte
 	OverlayRealPath map[string]string // virtual -> real
-	buildMu   sync.Mutex
-	repo      string
+	buildMu         sync.Mutex
+	repo            string
 }
 
 func parseKV(fields []string) map[string]string {
